@@ -1,12 +1,392 @@
-//! D — independent on-disk decoder (filled in below; see DESIGN.md Appendix B).
-use crate::model::{RNode, State};
-use crate::scenario::{Key, VSpec};
+//! D — independent decoder of the on-disk image, written from the documented layouts (module docs
+//! of leaf/node.rs, branch/node.rs, ops/overflow.rs, free_list.rs, store/meta.rs, bitbox/*,
+//! core/page{,_id}.rs, docs/nomt_specification.md; digest in DESIGN.md Appendix B). It shares no
+//! code with `nomt` (it uses the external xxh3 implementation and the hasher's three functions).
+use crate::model::{bit, RNode, State};
+use crate::scenario::{hex, value_bytes, Key, VSpec};
 use nomt::HashAlgorithm;
+use std::collections::{BTreeMap, BTreeSet};
+use std::fs::File;
+use std::os::unix::fs::FileExt;
 use std::path::Path;
 
-pub struct Image { pub ht_full: usize }
+const PAGE: usize = 4096;
+
+#[derive(Debug, Clone, Default)]
+pub struct Meta { pub ln_freelist_pn: u32, pub ln_bump: u32, pub bbn_freelist_pn: u32, pub bbn_bump: u32, pub sync_seqn: u32, pub buckets: u32, pub seed: [u8; 16], pub rb_start: u64, pub rb_end: u64 }
+
+#[derive(Debug, Clone)]
+pub enum Val { Inline(Vec<u8>), Overflow { len: u64, hash: [u8; 32], bytes: Vec<u8>, pages: Vec<u32> } }
+
+#[derive(Debug, Clone, Default)]
+pub struct StoreAcct { pub bump: u32, pub used: BTreeSet<u32>, pub free: BTreeSet<u32>, pub list_pages: BTreeSet<u32>, pub zero_untracked: BTreeSet<u32>, pub file_pages: u64 }
+
+pub struct Image {
+    pub meta: Meta,
+    pub kv: BTreeMap<Key, Val>,
+    pub ln: StoreAcct,
+    pub bbn: StoreAcct,
+    pub ht_full: usize,
+    pub ht_tombstones: usize,
+    /// full bucket -> (page path as child indices, raw page)
+    pub ht_pages: BTreeMap<Vec<u8>, (u64, Vec<u8>)>,
+    pub leaves: usize,
+    pub branches: usize,
+    pub overflow_values: usize,
+    pub rb_segments: Vec<(String, Vec<u64>, u64)>,
+}
+
 pub struct Expect<'a> { pub state: &'a State, pub trie: &'a RNode, pub hc_vh: &'a mut dyn FnMut(&Key, VSpec) -> [u8; 32], pub seqn: u32 }
 
-pub fn decode(_dir: &Path) -> Result<Image, String> { Ok(Image { ht_full: 0 }) }
-pub fn check_image<H: HashAlgorithm>(_img: &Image, _e: Expect<'_>) -> Result<(), (String, String)> { Ok(()) }
-pub fn check_accounting(_img: &Image) -> Result<(), (String, String)> { Ok(()) }
+fn rd(f: &File, pn: u64) -> Result<Vec<u8>, String> {
+    let mut b = vec![0u8; PAGE];
+    f.read_exact_at(&mut b, pn * PAGE as u64).map_err(|e| format!("cannot read page {pn}: {e}"))?;
+    Ok(b)
+}
+fn u16le(b: &[u8]) -> usize { u16::from_le_bytes([b[0], b[1]]) as usize }
+fn u32le(b: &[u8]) -> u32 { u32::from_le_bytes([b[0], b[1], b[2], b[3]]) }
+fn u64le(b: &[u8]) -> u64 { u64::from_le_bytes(b[..8].try_into().unwrap()) }
+
+type E = (String, String);
+fn e(class: &str, d: String) -> E { (class.to_string(), d) }
+
+fn read_free_list(f: &File, head: u32, bump: u32, name: &str) -> Result<(BTreeSet<u32>, BTreeSet<u32>), String> {
+    let mut free = BTreeSet::new();
+    let mut pages = BTreeSet::new();
+    let mut cur = head;
+    while cur != 0 {
+        if cur >= bump { return Err(format!("{name}: free-list page {cur} is beyond bump {bump}")); }
+        if !pages.insert(cur) { return Err(format!("{name}: free-list chain loops at page {cur}")); }
+        let p = rd(f, cur as u64)?;
+        let prev = u32le(&p[0..4]);
+        let n = u16le(&p[4..6]);
+        if n > 1022 { return Err(format!("{name}: free-list page {cur} claims {n} items")); }
+        for i in 0..n {
+            let pn = u32le(&p[6 + 4 * i..]);
+            if pn == 0 || pn >= bump { return Err(format!("{name}: free-list item {pn} out of range (bump {bump})")); }
+            if !free.insert(pn) { return Err(format!("{name}: page {pn} is on the free list twice")); }
+        }
+        cur = prev;
+    }
+    for p in &pages { if free.contains(p) { return Err(format!("{name}: page {p} is both a free-list page and a free page")); } }
+    Ok((free, pages))
+}
+
+fn get_bits(buf: &[u8], start: usize, len: usize, out: &mut Key, at: usize) {
+    for i in 0..len {
+        let b = (buf[(start + i) / 8] >> (7 - ((start + i) % 8))) & 1;
+        if at + i < 256 && b == 1 { out[(at + i) / 8] |= 1 << (7 - ((at + i) % 8)); }
+    }
+}
+
+/// Bijective base-64 decoding of a page label. The tree writes `id << 6` (the encoder shifts after
+/// adding the last digit); both that and the plain documented value are accepted.
+fn decode_label(label: &[u8]) -> Option<Vec<u8>> {
+    let mut v: Vec<u8> = label.to_vec(); // big-endian
+    fn is_zero(v: &[u8]) -> bool { v.iter().all(|b| *b == 0) }
+    fn shr6(v: &mut Vec<u8>) { let mut carry = 0u16; for b in v.iter_mut() { let cur = (carry << 8) | *b as u16; *b = (cur >> 6) as u8; carry = cur & 0x3f; } }
+    fn sub1(v: &mut Vec<u8>) { for b in v.iter_mut().rev() { if *b == 0 { *b = 0xff; } else { *b -= 1; break; } } }
+    if is_zero(&v) { return Some(vec![]); }
+    if v[31] & 0x3f != 0 { return None; }
+    shr6(&mut v);
+    let mut path = Vec::new();
+    while !is_zero(&v) {
+        sub1(&mut v);
+        path.push(v[31] & 0x3f);
+        shr6(&mut v);
+        if path.len() > 42 { return None; }
+    }
+    path.reverse();
+    Some(path)
+}
+fn encode_label(path: &[u8]) -> [u8; 32] {
+    // big-endian accumulate: v = (v + digit + 1) << 6
+    let mut v = [0u8; 32];
+    for d in path {
+        // add d+1
+        let mut carry = *d as u16 + 1;
+        for b in v.iter_mut().rev() { let s = *b as u16 + carry; *b = s as u8; carry = s >> 8; if carry == 0 { break; } }
+        // shl 6
+        let mut c = 0u16;
+        for b in v.iter_mut().rev() { let cur = ((*b as u16) << 6) | c; *b = cur as u8; c = cur >> 8; }
+    }
+    v
+}
+
+pub fn decode(dir: &Path) -> Result<Image, String> {
+    let open = |n: &str| File::open(dir.join(n)).map_err(|e| format!("cannot open {n}: {e}"));
+    // --- meta ---
+    let mf = open("meta")?;
+    let mut mb = [0u8; 64];
+    mf.read_exact_at(&mut mb, 0).map_err(|e| format!("meta: {e}"))?;
+    if &mb[0..4] != b"NOMT" { return Err("meta: bad magic".into()); }
+    if u32le(&mb[4..8]) != 1 { return Err(format!("meta: version {}", u32le(&mb[4..8]))); }
+    let meta = Meta { ln_freelist_pn: u32le(&mb[8..]), ln_bump: u32le(&mb[12..]), bbn_freelist_pn: u32le(&mb[16..]), bbn_bump: u32le(&mb[20..]), sync_seqn: u32le(&mb[24..]), buckets: u32le(&mb[28..]), seed: mb[32..48].try_into().unwrap(), rb_start: u64le(&mb[48..]), rb_end: u64le(&mb[56..]) };
+    if (meta.rb_start == 0) != (meta.rb_end == 0) { return Err(format!("meta: rollback live range ({}, {}) half nil", meta.rb_start, meta.rb_end)); }
+    if meta.ln_bump < 1 || meta.bbn_bump < 1 { return Err("meta: bump < 1".into()); }
+
+    // --- bbn ---
+    let bf = open("bbn")?;
+    let bbn_file_pages = bf.metadata().map_err(|e| e.to_string())?.len() / PAGE as u64;
+    if (meta.bbn_bump as u64) > bbn_file_pages { return Err(format!("bbn: bump {} beyond file ({} pages)", meta.bbn_bump, bbn_file_pages)); }
+    let (bbn_free, bbn_list) = read_free_list(&bf, meta.bbn_freelist_pn, meta.bbn_bump, "bbn")?;
+    let mut bbn = StoreAcct { bump: meta.bbn_bump, free: bbn_free, list_pages: bbn_list, file_pages: bbn_file_pages, ..Default::default() };
+    // (first key, [(key, leaf pn)])
+    let mut branches: Vec<(u32, Vec<(Key, u32)>)> = Vec::new();
+    for pn in 1..meta.bbn_bump {
+        if bbn.free.contains(&pn) || bbn.list_pages.contains(&pn) { continue; }
+        let p = rd(&bf, pn as u64)?;
+        if p.iter().all(|b| *b == 0) { bbn.zero_untracked.insert(pn); continue; }
+        if u32le(&p[0..4]) != pn { return Err(format!("bbn page {pn}: stored page number {} differs", u32le(&p[0..4]))); }
+        let n = u16le(&p[4..6]);
+        let pc = u16le(&p[6..8]);
+        let plen = u16le(&p[8..10]);
+        if n == 0 { return Err(format!("bbn page {pn}: zero separators")); }
+        if pc > n || plen > 256 { return Err(format!("bbn page {pn}: prefix_compressed {pc} > n {n} or prefix_len {plen} > 256")); }
+        let cells_end = 10 + 2 * n;
+        if cells_end + 4 * n > PAGE { return Err(format!("bbn page {pn}: {n} separators do not fit")); }
+        let sep_base = cells_end; // bit vector starts here: prefix ++ separators
+        let mut items = Vec::with_capacity(n);
+        let mut prev_end = 0usize;
+        for i in 0..n {
+            let end = u16le(&p[10 + 2 * i..]);
+            if end < prev_end { return Err(format!("bbn page {pn}: separator {i} ends before it starts")); }
+            let mut key = [0u8; 32];
+            let mut at = 0;
+            if i < pc { get_bits(&p[sep_base..], 0, plen, &mut key, 0); at = plen; }
+            let slen = end - prev_end;
+            if sep_base + (plen + end + 7) / 8 > PAGE - 4 * n { return Err(format!("bbn page {pn}: separators overlap node pointers")); }
+            if at + slen > 256 { return Err(format!("bbn page {pn}: separator {i} longer than a key")); }
+            get_bits(&p[sep_base..], plen + prev_end, slen, &mut key, at);
+            prev_end = end;
+            let ptr = u32le(&p[PAGE - 4 * (n - i)..]);
+            items.push((key, ptr));
+        }
+        for w in items.windows(2) { if w[0].0 >= w[1].0 { return Err(format!("bbn page {pn}: separators not strictly increasing ({} >= {})", hex(&w[0].0), hex(&w[1].0))); } }
+        bbn.used.insert(pn);
+        branches.push((pn, items));
+    }
+    branches.sort_by(|a, b| a.1[0].0.cmp(&b.1[0].0));
+    let mut seps: Vec<(Key, u32, u32)> = Vec::new();
+    for (pn, items) in &branches { for (k, l) in items { seps.push((*k, *l, *pn)); } }
+    for w in seps.windows(2) { if w[0].0 >= w[1].0 { return Err(format!("bbn: separators across branch pages {} and {} not strictly increasing ({} >= {})", w[0].2, w[1].2, hex(&w[0].0), hex(&w[1].0))); } }
+    if let Some(first) = seps.first() { if first.0 != [0u8; 32] { return Err(format!("bbn: first separator is {}, not all-zero", hex(&first.0))); } }
+
+    // --- ln ---
+    let lf = open("ln")?;
+    let ln_file_pages = lf.metadata().map_err(|e| e.to_string())?.len() / PAGE as u64;
+    if (meta.ln_bump as u64) > ln_file_pages { return Err(format!("ln: bump {} beyond file ({} pages)", meta.ln_bump, ln_file_pages)); }
+    let (ln_free, ln_list) = read_free_list(&lf, meta.ln_freelist_pn, meta.ln_bump, "ln")?;
+    let mut ln = StoreAcct { bump: meta.ln_bump, free: ln_free, list_pages: ln_list, file_pages: ln_file_pages, ..Default::default() };
+    let mut kv: BTreeMap<Key, Val> = BTreeMap::new();
+    let mut overflow_values = 0;
+    let mut last_key: Option<Key> = None;
+    for (i, (sep, leaf_pn, bpn)) in seps.iter().enumerate() {
+        if *leaf_pn == 0 || *leaf_pn >= meta.ln_bump { return Err(format!("bbn page {bpn}: leaf pointer {leaf_pn} out of range (bump {})", meta.ln_bump)); }
+        if !ln.used.insert(*leaf_pn) { return Err(format!("ln page {leaf_pn} is referenced twice")); }
+        let p = rd(&lf, *leaf_pn as u64)?;
+        let n = u16le(&p[0..2]);
+        if n == 0 { return Err(format!("leaf {leaf_pn}: empty leaf is referenced by branch page {bpn}")); }
+        if 2 + 34 * n > PAGE { return Err(format!("leaf {leaf_pn}: {n} cells do not fit")); }
+        let upper = seps.get(i + 1).map(|x| x.0);
+        let cell = |j: usize| -> (Key, usize, bool) {
+            let b = &p[2 + 34 * j..2 + 34 * j + 34];
+            let off = u16::from_le_bytes([b[32], b[33]]);
+            (b[..32].try_into().unwrap(), (off & 0x7fff) as usize, off & 0x8000 != 0)
+        };
+        for j in 0..n {
+            let (key, off, ovf) = cell(j);
+            let end = if j + 1 < n { cell(j + 1).1 } else { PAGE };
+            if off < 2 + 34 * n || end < off || end > PAGE { return Err(format!("leaf {leaf_pn}: cell {j} has range {off}..{end}")); }
+            if let Some(lk) = last_key { if key <= lk { return Err(format!("leaf {leaf_pn}: key {} not greater than the previous key {}", hex(&key), hex(&lk))); } }
+            if key < *sep { return Err(format!("leaf {leaf_pn}: key {} below its separator {}", hex(&key), hex(sep))); }
+            if let Some(u) = upper { if key >= u { return Err(format!("leaf {leaf_pn}: key {} not below the next separator {}", hex(&key), hex(&u))); } }
+            last_key = Some(key);
+            let raw = &p[off..end];
+            let val = if !ovf { Val::Inline(raw.to_vec()) } else {
+                if raw.len() < 44 || raw.len() % 4 != 0 || raw.len() > 40 + 15 * 4 { return Err(format!("leaf {leaf_pn}: overflow cell of {} bytes", raw.len())); }
+                let len = u64le(&raw[0..8]);
+                let hash: [u8; 32] = raw[8..40].try_into().unwrap();
+                let mut queue: Vec<u32> = raw[40..].chunks(4).map(u32le).collect();
+                let mut bytes = Vec::with_capacity(len as usize);
+                let mut qi = 0;
+                while qi < queue.len() {
+                    let pn = queue[qi];
+                    qi += 1;
+                    if pn == 0 || pn >= meta.ln_bump { return Err(format!("overflow value of {}: page {pn} out of range", hex(&key))); }
+                    if !ln.used.insert(pn) { return Err(format!("ln page {pn} is used twice (overflow value of {})", hex(&key))); }
+                    let op = rd(&lf, pn as u64)?;
+                    let np = u16le(&op[0..2]);
+                    let nb = u16le(&op[2..4]);
+                    if 4 + 4 * np + nb > PAGE { return Err(format!("overflow page {pn}: {np} pointers + {nb} bytes do not fit")); }
+                    for q in 0..np { queue.push(u32le(&op[4 + 4 * q..])); }
+                    bytes.extend_from_slice(&op[4 + 4 * np..4 + 4 * np + nb]);
+                }
+                if bytes.len() as u64 != len { return Err(format!("overflow value of {}: pages hold {} bytes, cell says {len}", hex(&key), bytes.len())); }
+                overflow_values += 1;
+                Val::Overflow { len, hash, bytes, pages: queue }
+            };
+            kv.insert(key, val);
+        }
+    }
+    for pn in 1..meta.ln_bump {
+        if ln.used.contains(&pn) || ln.free.contains(&pn) || ln.list_pages.contains(&pn) { continue; }
+        ln.zero_untracked.insert(pn);
+    }
+
+    // --- ht ---
+    let hf = open("ht")?;
+    let nb = meta.buckets as usize;
+    let meta_pages = (nb + 4095) / 4096;
+    let hlen = hf.metadata().map_err(|e| e.to_string())?.len();
+    if hlen != ((meta_pages + nb) * PAGE) as u64 { return Err(format!("ht: file length {hlen}, expected {}", (meta_pages + nb) * PAGE)); }
+    let mut map = Vec::with_capacity(meta_pages * PAGE);
+    for i in 0..meta_pages { map.extend_from_slice(&rd(&hf, i as u64)?); }
+    let seed64 = u64::from_be_bytes(meta.seed[..8].try_into().unwrap());
+    let mut ht_pages: BTreeMap<Vec<u8>, (u64, Vec<u8>)> = BTreeMap::new();
+    let (mut full, mut tomb) = (0, 0);
+    for b in 0..nb {
+        let m = map[b];
+        if m == 0x7f { tomb += 1; continue; }
+        if m & 0x80 == 0 { if m != 0 { return Err(format!("ht: meta byte {m:#x} of bucket {b} is neither empty, tombstone nor full")); } continue; }
+        full += 1;
+        let page = rd(&hf, (meta_pages + b) as u64)?;
+        let label: [u8; 32] = page[PAGE - 32..].try_into().unwrap();
+        let Some(path) = decode_label(&label) else { return Err(format!("ht: bucket {b} is marked full but its label {} is not a page id", hex(&label))); };
+        let enc = encode_label(&path);
+        let hash = twox_hash::xxhash3_64::Hasher::oneshot_with_seed(seed64, &enc);
+        if m != 0x80 | (hash >> 57) as u8 { return Err(format!("ht: bucket {b} holds page {:?} but its meta byte {m:#x} is not the tag of that page", path)); }
+        // probe sequence must reach this bucket before any empty slot
+        let (mut pos, mut step, mut found) = (hash % nb as u64, 0u64, false);
+        for _ in 0..(2 * nb + 16) {
+            pos = (pos + step) % nb as u64;
+            step += 1;
+            if pos as usize == b { found = true; break; }
+            if map[pos as usize] == 0 { break; }
+        }
+        if !found { return Err(format!("ht: page {:?} in bucket {b} is not reachable through its probe sequence", path)); }
+        if ht_pages.insert(path.clone(), (b as u64, page)).is_some() { return Err(format!("ht: page {:?} is stored in two buckets", path)); }
+    }
+
+    // --- rollback segments (light) ---
+    let mut rb_segments = Vec::new();
+    if let Ok(rd_dir) = std::fs::read_dir(dir) {
+        let mut names: Vec<String> = rd_dir.filter_map(|e| e.ok()).filter_map(|e| e.file_name().into_string().ok()).filter(|n| n.starts_with("rollback.") && n.ends_with(".log")).collect();
+        names.sort();
+        for n in names {
+            let f = open(&n)?;
+            let len = f.metadata().map_err(|e| e.to_string())?.len();
+            let mut ids = Vec::new();
+            let mut pos = 0u64;
+            while pos + 12 <= len {
+                let mut h = [0u8; 12];
+                if f.read_exact_at(&mut h, pos).is_err() { break; }
+                let plen = u32le(&h[0..4]) as u64;
+                let id = u64le(&h[4..12]);
+                if id == 0 { break; }
+                ids.push(id);
+                pos = (pos + 12 + plen + 4095) / 4096 * 4096;
+            }
+            rb_segments.push((n, ids, len));
+        }
+    }
+
+    Ok(Image { meta, kv, ln, bbn, ht_full: full, ht_tombstones: tomb, ht_pages, leaves: seps.len(), branches: branches.len(), overflow_values, rb_segments })
+}
+
+fn slot(layer: usize, j: usize) -> usize { (1 << layer) - 2 + j }
+
+/// C16: the decoded image represents exactly the model state.
+pub fn check_image<H: HashAlgorithm>(img: &Image, ex: Expect<'_>) -> Result<(), E> {
+    if img.meta.sync_seqn != ex.seqn { return Err(e("disk-seqn", format!("meta sync_seqn = {}, model = {}", img.meta.sync_seqn, ex.seqn))); }
+    // --- values ---
+    for (k, v) in ex.state.iter() {
+        let want = value_bytes(k, *v);
+        match img.kv.get(k) {
+            None => return Err(e("disk-key-missing", format!("key {} (len {}) is in the model but in no leaf", hex(k), v.len))),
+            Some(Val::Inline(b)) => { if *b != want { return Err(e("disk-value", format!("leaf value of {} has {} bytes, model has {}", hex(k), b.len(), want.len()))); } if want.len() > 1332 { return Err(e("disk-value-form", format!("value of {} ({} bytes) is stored in-leaf", hex(k), want.len()))); } }
+            Some(Val::Overflow { len, hash, bytes, .. }) => {
+                if *len as usize != want.len() || *bytes != want { return Err(e("disk-value", format!("overflow value of {} has {} bytes, model has {}", hex(k), len, want.len()))); }
+                let vh = (ex.hc_vh)(k, *v);
+                if *hash != vh { return Err(e("disk-value-hash", format!("overflow cell of {} carries a wrong value hash", hex(k)))); }
+            }
+        }
+    }
+    if img.kv.len() != ex.state.len() {
+        let extra = img.kv.keys().find(|k| !ex.state.contains_key(*k)).unwrap();
+        return Err(e("disk-key-extra", format!("key {} is in a leaf but not in the model", hex(extra))));
+    }
+    // --- merkle pages ---
+    let stored = &img.ht_pages;
+    let mut visited: BTreeSet<Vec<u8>> = BTreeSet::new();
+    fn walk_in_page<'a>(node: &'a RNode, page: &[u8], layer: usize, j: usize, path: &Vec<u8>, bottom: &mut Vec<(usize, &'a RNode)>) -> Result<(), E> {
+        // `node` sits at (layer, j) of the page; layer 0 = the position above the page (not stored in it)
+        if layer >= 1 {
+            let s = slot(layer, j);
+            let got = &page[32 * s..32 * s + 32];
+            if got != node.hash() { return Err(e("disk-merkle-node", format!("page {:?} slot {s} = {}, reference trie has {}", path, hex(got), hex(&node.hash())))); }
+        }
+        if let RNode::Int { l, r, .. } = node {
+            if layer == 6 { bottom.push((j, node)); return Ok(()); }
+            walk_in_page(l, page, layer + 1, 2 * j, path, bottom)?;
+            walk_in_page(r, page, layer + 1, 2 * j + 1, path, bottom)?;
+        }
+        Ok(())
+    }
+    fn visit(top: &RNode, path: Vec<u8>, stored: &BTreeMap<Vec<u8>, (u64, Vec<u8>)>, visited: &mut BTreeSet<Vec<u8>>) -> Result<(), E> {
+        let Some((_, page)) = stored.get(&path) else { return Err(e("disk-merkle-page-missing", format!("page {:?} has content ({} leaves below) and is not marked elided, but is not stored", path, top.leaves()))); };
+        visited.insert(path.clone());
+        let mut bottom = Vec::new();
+        walk_in_page(top, page, 0, 0, &path, &mut bottom)?;
+        let elided = u64::from_le_bytes(page[PAGE - 40..PAGE - 32].try_into().unwrap());
+        for (c, child_top) in bottom {
+            let mut cp = path.clone();
+            cp.push(c as u8);
+            let is_elided = !path.is_empty() && ((elided >> c) & 1 == 1);
+            if is_elided {
+                if stored.contains_key(&cp) { return Err(e("disk-merkle-elided-but-stored", format!("page {:?} is marked elided in its parent but is stored", cp))); }
+            } else {
+                visit(child_top, cp, stored, visited)?;
+            }
+        }
+        Ok(())
+    }
+    match ex.trie {
+        RNode::Int { .. } => visit(ex.trie, vec![], stored, &mut visited)?,
+        _ => {
+            if let Some((_, page)) = stored.get(&vec![]) {
+                if page[..64].iter().any(|b| *b != 0) { return Err(e("disk-merkle-node", "root page has nodes although the trie has fewer than two keys".into())); }
+                visited.insert(vec![]);
+            }
+        }
+    }
+    if let Some(p) = stored.keys().find(|p| !visited.contains(*p)) {
+        return Err(e("disk-merkle-stale-page", format!("page {:?} is stored (bucket {}) but the reference trie has no content there or an ancestor marks it elided", p, stored[p].0)));
+    }
+    Ok(())
+}
+
+/// C19: every page below the frontier is in use or on a free list, and nothing twice.
+pub fn check_accounting(img: &Image) -> Result<(), E> {
+    for (name, a) in [("ln", &img.ln), ("bbn", &img.bbn)] {
+        if let Some(p) = a.used.iter().find(|p| a.free.contains(*p)) { return Err(e("page-free-and-used", format!("{name} page {p} is in use and on the free list"))); }
+        if let Some(p) = a.used.iter().find(|p| a.list_pages.contains(*p)) { return Err(e("page-free-and-used", format!("{name} page {p} is in use and a free-list page"))); }
+        if let Some(p) = a.zero_untracked.iter().next() { return Err(e("page-leaked", format!("{name} page {p} (bump {}) is neither in use nor on the free list: {} such pages", a.bump, a.zero_untracked.len()))); }
+        let total = a.used.len() + a.free.len() + a.list_pages.len();
+        if total as u32 != a.bump - 1 { return Err(e("page-accounting", format!("{name}: used {} + free {} + free-list pages {} != bump-1 = {}", a.used.len(), a.free.len(), a.list_pages.len(), a.bump - 1))); }
+    }
+    if img.ht_full != img.ht_pages.len() { return Err(e("ht-accounting", format!("{} full buckets, {} distinct pages", img.ht_full, img.ht_pages.len()))); }
+    Ok(())
+}
+
+/// C17: what the committed image references (must not be touched before the next switch-over).
+pub struct LiveSet { pub ln: BTreeSet<u32>, pub bbn: BTreeSet<u32>, pub ln_bump: u32, pub bbn_bump: u32, pub rb_live: Vec<(String, u64)>, pub rb_range: (u64, u64) }
+pub fn live_set(img: &Image) -> LiveSet {
+    let mut ln: BTreeSet<u32> = img.ln.used.clone(); ln.extend(img.ln.list_pages.iter().cloned());
+    let mut bbn: BTreeSet<u32> = img.bbn.used.clone(); bbn.extend(img.bbn.list_pages.iter().cloned());
+    let mut rb_live = Vec::new();
+    for (name, ids, len) in &img.rb_segments {
+        if ids.iter().any(|i| *i >= img.meta.rb_start && *i <= img.meta.rb_end) && img.meta.rb_start != 0 { rb_live.push((name.clone(), *len)); }
+    }
+    LiveSet { ln, bbn, ln_bump: img.meta.ln_bump, bbn_bump: img.meta.bbn_bump, rb_live, rb_range: (img.meta.rb_start, img.meta.rb_end) }
+}
